@@ -505,4 +505,145 @@ theorem sortPointsItems_spec {as : List Int → List Nat} (has : IsArgsort as) {
       obtain ⟨hle, hnle⟩ := h12 a ha' b hb'
       exact ⟨hle, fun he => absurd (lexLE_of_kvec_eq _ _ _ _ _ he.symm) hnle⟩
 
+/-! ### independence of `argsort`, canonicity -/
+
+theorem le2_antisymm {KCf KMf : Nat → PItem → Int} {n : Nat} {a b : PItem}
+    (h1 : le2 KCf KMf n a b) (h2 : le2 KCf KMf n b a) :
+    kvec KCf n 0 a = kvec KCf n 0 b ∧ kvec KMf n 0 a = kvec KMf n 0 b := by
+  have e := lexLE_antisymm _ _ _ _ _ h1.1 h2.1
+  exact ⟨e, lexLE_antisymm _ _ _ _ _ (h1.2 e) (h2.2 e.symm)⟩
+
+theorem kvec_comp {β : Type} (K : Nat → β → Int) (f : α → β) (a : α) (fuel j : Nat) :
+    kvec (fun j a => K j (f a)) fuel j a = kvec K fuel j (f a) :=
+  kvec_congr _ _ a (f a) fuel j (fun _ _ _ => rfl)
+
+/-- the centre key vector of a point with candidate centres does not depend on `argsort` -/
+theorem KM_kvec_unique {as1 as2 : List Int → List Nat} (h1 : IsArgsort as1) (h2 : IsArgsort as2)
+    {t : MeshTol} {A B M : Nat} {m : Mesh} {cands : List (List Int)}
+    (hC : SepCols t A B M rowKey m.dim cands) (hdim : 1 ≤ m.dim) {it : PItem} {cs : List (List Int)}
+    (hcs : centresOf m it.1 = some cs) (hsub : ∀ c ∈ cs, c ∈ cands) :
+    kvec (KM A cands as1 t m) m.dim 0 it = kvec (KM A cands as2 t m) m.dim 0 it := by
+  have := minCentre_key_unique (A := A) h1 h2 hC hdim hcs hsub
+  unfold KM
+  rw [kvec_comp (KG A cands) (mcD as1 t m) it, kvec_comp (KG A cands) (mcD as2 t m) it]
+  exact this
+
+/-- **the point sort does not depend on `argsort`.**  If coincident points are distinguishable by
+    the cluster keys of their minimal adjacent cell centres, two `argsort` routines with different
+    tie-breaking produce the same result. -/
+theorem sortPointsItems_tie_independent {as1 as2 : List Int → List Nat} (h1 : IsArgsort as1)
+    (h2 : IsArgsort as2) {t : MeshTol} {A B M : Nat} {m : Mesh} {cands : List (List Int)}
+    (hyp : PointHypP t A B M m cands)
+    (hdist : ∀ a ∈ pitems m, ∀ b ∈ pitems m, kvec (KC A m) m.dim 0 a = kvec (KC A m) m.dim 0 b →
+      kvec (KM A cands as1 t m) m.dim 0 a = kvec (KM A cands as1 t m) m.dim 0 b → a = b) :
+    sortPointsItems as1 t m = sortPointsItems as2 t m := by
+  by_cases hne : m.points = []
+  · unfold sortPointsItems; simp [hne]
+  obtain ⟨L1, e1, p1, s1⟩ := sortPointsItems_spec h1 hyp hne
+  obtain ⟨L2, e2, p2, s2⟩ := sortPointsItems_spec h2 hyp hne
+  rw [e1, e2]
+  congr 1
+  have hnd2 : L2.Pairwise (· ≠ ·) := (p2.nodup_iff).mpr (pitems_nodup m)
+  have s2' : L2.Pairwise (le2 (KC A m) (KM A cands as1 t m) m.dim) := by
+    refine (s2.and hnd2).imp_of_mem ?_
+    intro a b ha hb hab
+    obtain ⟨hle, hne'⟩ := hab
+    refine ⟨hle.1, fun he => ?_⟩
+    have ha' := p2.mem_iff.mp ha
+    have hb' := p2.mem_iff.mp hb
+    obtain ⟨csa, hca, hsa⟩ := hyp.centres a ha' b hb' hne' he
+    obtain ⟨csb, hcb, hsb⟩ := hyp.centres b hb' a ha' (Ne.symm hne') he.symm
+    exact lexLE_congr (KM A cands as2 t m) (KM A cands as1 t m) m.dim 0 a b a b
+      (KM_kvec_unique h2 h1 hyp.sepC hyp.dimPos hca hsa) (KM_kvec_unique h2 h1 hyp.sepC hyp.dimPos hcb hsb)
+      (hle.2 he)
+  refine List.Perm.eq_of_pairwise ?_ s1 s2' (p1.trans p2.symm)
+  intro a b ha hb hab hba
+  obtain ⟨ek, em⟩ := le2_antisymm hab hba
+  exact hdist a (p1.mem_iff.mp ha) b (p2.mem_iff.mp hb) ek em
+
+/-- the two key vectors of a point item: coordinates, minimal centre -/
+def kv2 (KCf KMf : Nat → PItem → Int) (n : Nat) (it : PItem) : List Int × List Int :=
+  (kvec KCf n 0 it, kvec KMf n 0 it)
+
+/-- the order `le2` on pairs of key vectors -/
+def R2 (n : Nat) (u v : List Int × List Int) : Prop := vle n u.1 v.1 ∧ (u.1 = v.1 → vle n u.2 v.2)
+
+theorem R2_of_le2 {KCf KMf : Nat → PItem → Int} {n : Nat} {a b : PItem} (h : le2 KCf KMf n a b) :
+    R2 n (kv2 KCf KMf n a) (kv2 KCf KMf n b) :=
+  ⟨vle_of_lexLE _ _ _ _ h.1, fun e => vle_of_lexLE _ _ _ _ (h.2 e)⟩
+
+theorem R2_antisymm {K1 M1 K2 M2 : Nat → PItem → Int} {n : Nat} {a b : PItem}
+    (h1 : R2 n (kv2 K1 M1 n a) (kv2 K2 M2 n b)) (h2 : R2 n (kv2 K2 M2 n b) (kv2 K1 M1 n a)) :
+    kv2 K1 M1 n a = kv2 K2 M2 n b := by
+  have e : kvec K1 n 0 a = kvec K2 n 0 b := vle_antisymm K1 K2 n a b h1.1 h2.1
+  have e' : kvec M1 n 0 a = kvec M2 n 0 b := vle_antisymm M1 M2 n a b (h1.2 e) (h2.2 e.symm)
+  simp only [kv2, e, e']
+
+/-- **canonicity of the point sort, key level (noise allowed).**  Two meshes (two noisy, relabelled
+    copies), each satisfying `PointHypP`, sorted with two arbitrary `argsort` routines: if the pairs
+    (coordinate key vector, minimal-centre key vector) of their points agree up to permutation, the
+    two sorted point sequences carry pointwise equal key-vector pairs. -/
+theorem sortPoints_canonical_keys {as1 as2 : List Int → List Nat} (h1 : IsArgsort as1) (h2 : IsArgsort as2)
+    {t1 t2 : MeshTol} {A1 B1 M1 A2 B2 M2 : Nat} {m1 m2 : Mesh} {c1 c2 : List (List Int)}
+    (hy1 : PointHypP t1 A1 B1 M1 m1 c1) (hy2 : PointHypP t2 A2 B2 M2 m2 c2)
+    (hn1 : m1.points ≠ []) (hn2 : m2.points ≠ []) (hdim : m1.dim = m2.dim)
+    (hrel : ((pitems m1).map (kv2 (KC A1 m1) (KM A1 c1 as1 t1 m1) m1.dim)).Perm
+            ((pitems m2).map (kv2 (KC A2 m2) (KM A2 c2 as2 t2 m2) m2.dim))) :
+    ∃ L1 L2, sortPointsItems as1 t1 m1 = some L1 ∧ sortPointsItems as2 t2 m2 = some L2 ∧
+      L1.map (kv2 (KC A1 m1) (KM A1 c1 as1 t1 m1) m1.dim) =
+      L2.map (kv2 (KC A2 m2) (KM A2 c2 as2 t2 m2) m2.dim) := by
+  obtain ⟨L1, e1, p1, s1⟩ := sortPointsItems_spec h1 hy1 hn1
+  obtain ⟨L2, e2, p2, s2⟩ := sortPointsItems_spec h2 hy2 hn2
+  refine ⟨L1, L2, e1, e2, ?_⟩
+  have hv1 : (L1.map (kv2 (KC A1 m1) (KM A1 c1 as1 t1 m1) m1.dim)).Pairwise (R2 m1.dim) := by
+    rw [List.pairwise_map]; exact s1.imp (fun {a b} h => R2_of_le2 h)
+  have hv2 : (L2.map (kv2 (KC A2 m2) (KM A2 c2 as2 t2 m2) m2.dim)).Pairwise (R2 m1.dim) := by
+    rw [List.pairwise_map, hdim]; exact s2.imp (fun {a b} h => R2_of_le2 h)
+  refine List.Perm.eq_of_pairwise ?_ hv1 hv2 (((p1.map _).trans hrel).trans (p2.map _).symm)
+  intro u v hu hv huv hvu
+  obtain ⟨a, _, rfl⟩ := List.mem_map.mp hu
+  obtain ⟨b, _, rfl⟩ := List.mem_map.mp hv
+  rw [← hdim] at huv hvu ⊢
+  exact R2_antisymm huv hvu
+
+/-- **canonicity of the point sort, identical points (noise-free).**  If moreover the pairs
+    (coordinates, key-vector pair) of the two point sets agree up to permutation and the key-vector
+    pairs of mesh 1 are pairwise distinct (coincident points distinguishable), the two sorted
+    sequences of coordinates are IDENTICAL. -/
+theorem sortPoints_canonical_rows {as1 as2 : List Int → List Nat} (h1 : IsArgsort as1) (h2 : IsArgsort as2)
+    {t1 t2 : MeshTol} {A1 B1 M1 A2 B2 M2 : Nat} {m1 m2 : Mesh} {c1 c2 : List (List Int)}
+    (hy1 : PointHypP t1 A1 B1 M1 m1 c1) (hy2 : PointHypP t2 A2 B2 M2 m2 c2)
+    (hn1 : m1.points ≠ []) (hn2 : m2.points ≠ []) (hdim : m1.dim = m2.dim)
+    (hrel : ((pitems m1).map fun it => (it.2, kv2 (KC A1 m1) (KM A1 c1 as1 t1 m1) m1.dim it)).Perm
+            ((pitems m2).map fun it => (it.2, kv2 (KC A2 m2) (KM A2 c2 as2 t2 m2) m2.dim it)))
+    (hdist : ∀ a ∈ pitems m1, ∀ b ∈ pitems m1,
+      kv2 (KC A1 m1) (KM A1 c1 as1 t1 m1) m1.dim a = kv2 (KC A1 m1) (KM A1 c1 as1 t1 m1) m1.dim b → a.2 = b.2) :
+    ∃ L1 L2, sortPointsItems as1 t1 m1 = some L1 ∧ sortPointsItems as2 t2 m2 = some L2 ∧
+      L1.map (·.2) = L2.map (·.2) := by
+  obtain ⟨L1, e1, p1, s1⟩ := sortPointsItems_spec h1 hy1 hn1
+  obtain ⟨L2, e2, p2, s2⟩ := sortPointsItems_spec h2 hy2 hn2
+  refine ⟨L1, L2, e1, e2, ?_⟩
+  set f1 : PItem → List Int × (List Int × List Int) :=
+    fun it => (it.2, kv2 (KC A1 m1) (KM A1 c1 as1 t1 m1) m1.dim it) with hf1
+  set f2 : PItem → List Int × (List Int × List Int) :=
+    fun it => (it.2, kv2 (KC A2 m2) (KM A2 c2 as2 t2 m2) m2.dim it) with hf2
+  have hv1 : (L1.map f1).Pairwise (fun x y => R2 m1.dim x.2 y.2) := by
+    rw [List.pairwise_map]; exact s1.imp (fun {a b} h => R2_of_le2 h)
+  have hv2 : (L2.map f2).Pairwise (fun x y => R2 m1.dim x.2 y.2) := by
+    rw [List.pairwise_map, hdim]; exact s2.imp (fun {a b} h => R2_of_le2 h)
+  have hperm : (L1.map f1).Perm (L2.map f2) := ((p1.map f1).trans hrel).trans (p2.map f2).symm
+  have key : L1.map f1 = L2.map f2 := by
+    refine List.Perm.eq_of_pairwise ?_ hv1 hv2 hperm
+    intro x y hx hy hxy hyx
+    -- y also occurs on side 1
+    have hy1' : y ∈ (pitems m1).map f1 := (p1.map f1).mem_iff.mp (hperm.mem_iff.mpr hy)
+    have hx1' : x ∈ (pitems m1).map f1 := (p1.map f1).mem_iff.mp hx
+    obtain ⟨a, ha, rfl⟩ := List.mem_map.mp hx1'
+    obtain ⟨a', ha', rfl⟩ := List.mem_map.mp hy1'
+    have ekv : kv2 (KC A1 m1) (KM A1 c1 as1 t1 m1) m1.dim a = kv2 (KC A1 m1) (KM A1 c1 as1 t1 m1) m1.dim a' :=
+      R2_antisymm hxy hyx
+    simp only [hf1, ekv, hdist a ha a' ha' ekv]
+  have := congrArg (List.map (·.1)) key
+  simpa [hf1, hf2, List.map_map, Function.comp_def] using this
+
 end Fc
